@@ -3,9 +3,10 @@
 import json, os, re, sys
 V = os.path.dirname(os.path.dirname(os.path.abspath(__file__)))
 seed, caught, strengthened, detection = sys.argv[1:5]
+title_override = sys.argv[5] if len(sys.argv) > 5 else None
 d = os.path.join(V, "seeded", seed)
 notes = open(os.path.join(d, "notes.md")).read().splitlines()
-title = next((l.lstrip("# ").strip() for l in notes if l.startswith("#")), seed)
+title = title_override or next((l.lstrip("# ").strip() for l in notes if l.startswith("# ")), None) or next((l.lstrip("# ").strip() for l in notes if l.startswith("#")), seed)
 needs, on = [], False
 for l in notes:
     if re.match(r"^#+ ", l):
